@@ -47,4 +47,12 @@ Definition listing (ft : file_type) (s : store) : list (id * N) :=
 Inductive common_rule := CommonEqualSize.
 Inductive hot_only_rule := HotOnlyNotCommon | HotOnlyNotInCold.
 
+(* repofile/indexfile.rs: the two sections of an index file; one entry per pack an index file names *)
+Inductive index_section := SecPacks | SecPacksToDelete.
+Definition sec_eqb (a b : index_section) : bool :=
+  match a, b with SecPacks, SecPacks | SecPacksToDelete, SecPacksToDelete => true | _, _ => false end.
+Definition blob_eqb (a b : blob_type) : bool :=
+  match a, b with Tree, Tree | Data, Data => true | _, _ => false end.
+Record index_entry := mkie { ie_sec : index_section; ie_id : id; ie_blob : blob_type }.
+
 Definition isSome {A} (o : option A) : bool := match o with Some _ => true | None => false end.
